@@ -239,8 +239,8 @@ def evaluate(e, env):
                 finally: env.pop("__in_left__", None)
                 return r_ if isinstance(op, ast.In) else not r_
             raise Unsupported("membership test on the sample object self")
-        if isinstance(op, ast.In): return a in b
-        if isinstance(op, ast.NotIn): return a not in b
+        if isinstance(op, ast.In): return _native(lambda: a in b, ())          # an unhashable sample looked up in a set / dict: the program's TypeError
+        if isinstance(op, ast.NotIn): return _native(lambda: a not in b, ())
         if isinstance(op, (ast.Is, ast.IsNot)):
             # a builtin type is the same object however it was reached: the name tuple (a PyFn around the type) and type(x)
             a_ = a.fn if isinstance(a, PyFn) and isinstance(a.fn, type) else a; b_ = b.fn if isinstance(b, PyFn) and isinstance(b.fn, type) else b
@@ -614,6 +614,15 @@ class Inst(dict):
     __hash__ = object.__hash__
     def __eq__(s, o): return s is o
     def __ne__(s, o): return s is not o
+    def __bool__(s):
+        # truth of an instance is its class's business (__bool__, else __len__, else True), as in Python: an empty ModelRepository is falsy
+        env = getattr(s, "_env", None)
+        if env is None: return True
+        cds = env.get("__classdefs__") or {}
+        for m_ in ("__bool__", "__len__"):
+            c_, f_ = find_method(cds, s[".__cls__"], m_)
+            if f_ is not None: return bool(call_method_of(s, c_, f_, [], {}, env))
+        return True
 def _mro(cds, name):
     out_ = []; todo = [name]
     while todo:
@@ -660,7 +669,7 @@ def call_method_of(inst_, cls_name, fn_, args, kw, env):
     return run_block(fn_.body, env2)
 def instantiate(cls_name, args, kw, env):
     cds = env.get("__classdefs__") or {}
-    o = Inst({".__cls__": cls_name})
+    o = Inst({".__cls__": cls_name}); o._env = env
     _c, init_ = find_method(cds, cls_name, "__init__")
     if init_ is not None: call_method_of(o, _c, init_, args, kw, env)
     elif args or kw: raise Raised("TypeError")
